@@ -185,11 +185,14 @@ pub fn emit_gen(out: &mut impl Write, vi: usize, data: &[u8], pieces: &[Vec<u8>]
                 g.update(p);
                 lens.push(len_str(g.processed_len()));
             }
-            let res: Vec<String> = opts.iter().map(|&o| result_str(g.finalize_with_options(&options_from_bits(o)), bin_len)).collect();
+            // one options object per option set, shared by the chunked and the one-shot generator (how an
+            // options object is built is C10's / C01's business, not a difference between the two)
+            let objs: Vec<GeneratorOptions> = opts.iter().map(|&o| options_from_bits(o)).collect();
+            let res: Vec<String> = objs.iter().map(|o| result_str(g.finalize_with_options(o), bin_len)).collect();
             // direct oracle: one update with the whole input (through `Default`, the other constructor)
             let mut g1 = <Generator<T> as Default>::default();
             g1.update(data);
-            let res1: Vec<String> = opts.iter().map(|&o| result_str(g1.finalize_with_options(&options_from_bits(o)), bin_len)).collect();
+            let res1: Vec<String> = objs.iter().map(|o| result_str(g1.finalize_with_options(o), bin_len)).collect();
             let same = res == res1 && g.processed_len() == g1.processed_len();
             // `finalize()` is `finalize_with_options` at the default options, however those are spelt
             let d0 = result_str(g.finalize(), bin_len);
@@ -537,11 +540,12 @@ pub fn emit_hist(out: &mut impl Write, vi: usize, script: &[String]) {
                     outs.push(len_str(gens[cur].processed_len()));
                 } else if let Some(o) = op.strip_prefix("f:") {
                     let o: u32 = o.parse().unwrap();
-                    let r = result_str(gens[cur].finalize_with_options(&options_from_bits(o)), bin_len);
+                    let obj = options_from_bits(o);
+                    let r = result_str(gens[cur].finalize_with_options(&obj), bin_len);
                     // direct oracle: a fresh generator fed exactly the bytes this handle has seen
                     let mut fresh = Generator::<T>::new();
                     fresh.update(&seen[cur]);
-                    let r2 = result_str(fresh.finalize_with_options(&options_from_bits(o)), bin_len);
+                    let r2 = result_str(fresh.finalize_with_options(&obj), bin_len);
                     if r != r2 || fresh.processed_len() != gens[cur].processed_len() {
                         oracle_ok = false;
                     }
